@@ -206,6 +206,55 @@ def translator_validation(res, rel, ql, seed):
     return n_bad == 0
 
 
+# ---------------------------------------------------------------- deep histories: backward reconstruction from a target state
+
+def _state_of_model(m, v):
+    g = lambda e: m.eval(e, model_completion=True)
+    idd = g(v.st_id_d).as_long()
+    return {"id": g(v.st_id_v).as_long() if idd == 1 else None, "fn": g(v.st_fn).as_long(), "data": bytes(seq_bytes(m, v.st_data))}
+
+
+def _seq_const(b):
+    e = z3.Empty(R.BYTES)
+    for x in b:
+        e = z3.Concat(e, z3.Unit(z3.BitVecVal(x, 8)))
+    return e
+
+
+def canonical_histories(target):
+    """candidate histories that drive the fragment counter to target['fn'] (the sequence solver cannot construct hundreds of
+    payload bytes, so the candidates are built directly and *evaluated* through the relation): a group of F one-byte fragments
+    with the target's id, left open (declared count F+1) or delivered (declared count F)."""
+    F, mid = target["fn"], target["id"]
+    cands = []
+    if 1 <= F <= 255:
+        for nf in ([F + 1] if F < 255 else []) + [F]:
+            cands.append([{"t_ok": True, "nf": nf, "fn": k, "id": mid, "data": b"0", "fill": 0, "chk": 0, "xor": 0} for k in range(1, F + 1)])
+    cands.append([])
+    return cands
+
+
+def history_to_state(rel, target, ql, res, max_steps=700):
+    """a concrete history (list of step dicts) that drives a fresh parser into a state with the target's sequence id and
+    fragment number; returns (history, reached state) or (None, None).  Candidates are evaluated concretely through the relation."""
+    t0 = time.time()
+    for cand in canonical_histories(target):
+        state = (None, 0, b"")
+        ok = True
+        for f in cand:
+            out, state = concrete_eval(rel, state, f)
+            if out["kind"] not in (R.K_COMPLETE, R.K_INCOMPLETE):
+                ok = False
+                break
+        if ok and state[0] == target["id"] and state[1] == target["fn"]:
+            hist = [{"t_ok": True, "nf": f["nf"], "fn": f["fn"], "id": f["id"], "data": f["data"].decode("latin1"), "fill": 0, "good_checksum": True, "decode": False,
+                     "line": nmea_line(f["nf"], f["fn"], f["id"], f["data"].decode("latin1"), 0).decode("latin1")} for f in cand]
+            ql.add("canonical-history(%d lines) reaches fragment counter %d[%s]" % (len(hist), target["fn"], rel.cfg), "found", time.time() - t0)
+            return hist, {"id": state[0], "fn": state[1], "data": state[2]}
+    ql.add("canonical-history to fragment counter %d[%s]" % (target["fn"], rel.cfg), "none", time.time() - t0)
+    return None, None
+
+
 # ---------------------------------------------------------------- C01-S: no panic edge reachable
 
 def q_no_panic(res, rel, ql, k_bmc=3):
@@ -235,7 +284,37 @@ def q_no_panic(res, rel, ql, k_bmc=3):
             else:
                 res.norepro.append("%s: model history %s did not panic on the real library (%s)" % (it["query"], [h["line"] for h in hist], outs))
             return False
-    res.inconclusive.append("panic reachable from some parser state [%s] but not from a fresh parser within %d steps" % (rel.cfg, k_bmc))
+    # deep history: take a panicking (state, line) pair - preferring small states -, construct a canonical history that
+    # reaches the state's (id, fragment number), then ask for the panicking line from the state actually reached
+    for pref in ([z3.Length(st.v.st_data) == 0], [z3.Length(st.v.st_data) <= 4], []):
+        s, r3, dt = solve([st.wf, st.kind == R.K_PANIC, z3.Not(st.v.decode)] + pref, timeout_s=60)
+        if r3 != "sat":
+            continue
+        target = _state_of_model(s.model(), st.v)
+        hist, reached = history_to_state(rel, target, ql, res)
+        if hist is None:
+            continue
+        st2 = rel.step("_pd")
+        v2 = st2.v
+        fix = [v2.st_id_d == (0 if reached["id"] is None else 1), v2.st_id_v == (reached["id"] or 0), v2.st_fn == reached["fn"], v2.st_data == _seq_const(reached["data"])]
+        s2, r4, dt = solve([st2.wf, st2.kind == R.K_PANIC, z3.Not(v2.decode), z3.Length(v2.data) <= 2] + fix, timeout_s=60)
+        it = ql.add("panic-from-reached-state[%s]" % rel.cfg, r4, dt)
+        record(res, it)
+        if r4 != "sat":
+            continue
+        hist = hist + [step_from_model(s2.model(), st2, "alpha", rel.scale)]
+        outs, path = replay_history(rel.cfg, hist)
+        res.replayed += 1
+        if any(o["kind"] == "P" for o in outs):
+            short = ([h["line"] for h in hist[:2]] + ["... %d more lines ..." % (len(hist) - 3)] + [hist[-1]["line"]]) if len(hist) > 4 else [h["line"] for h in hist]
+            slim = hist if len(hist) <= 12 else hist[:3] + [{"elided_lines": len(hist) - 6, "pattern": "fragments 4..%d of the same group, one payload byte each" % (len(hist) - 4)}] + hist[-3:]
+            rec_outs = outs if len(outs) <= 12 else outs[:3] + outs[-3:]
+            report_violation(res, prop, "panic-deep-history[%s]" % rel.cfg, rel.cfg, hist, rec_outs, "panic after a history of %d lines %s: %s" % (
+                len(hist), short, next(o["msg"] for o in outs if o["kind"] == "P")))
+            return False
+        res.norepro.append("panic-deep-history[%s]: constructed history of %d lines did not panic on the real library" % (rel.cfg, len(hist)))
+        return False
+    res.inconclusive.append("panic reachable from some parser state [%s] but no history from a fresh parser found (BMC %d steps, backward reconstruction stuck)" % (rel.cfg, k_bmc))
     return False
 
 
@@ -477,10 +556,14 @@ def q_from_impls(res, rel, ql):
 def q_only_groups(res, rel, ql, k_bmc=5, modes=("off", "zero")):
     prop = res.prop
     ok = True
+    real_cfg = rel.cfg
+    # bounded histories of the no-alloc build run on the capacity-scaled relation (384 -> 3, payloads <= 3 bytes), so that
+    # over-capacity fragments occur inside the bound; witnesses are scaled back (x128) for the replay
+    rel = witness_relation(rel)
     for mode in modes:
         found = False
         for k in range(1, k_bmc + 1):
-            steps, cons = chain(rel, k, True, maxlen=2, decode_mode="off" if mode == "off" else "zero")
+            steps, cons = chain(rel, k, True, maxlen=3 if rel.heapless else 2, decode_mode="off" if mode == "off" else "zero")
             mon_open, gid_d, gid_v, last, cat = z3.BoolVal(False), z3.BitVecVal(0, 64), z3.BitVecVal(0, 8), z3.BitVecVal(0, 8), z3.Empty(R.BYTES)
             bad = []
             for st in steps:
@@ -503,7 +586,7 @@ def q_only_groups(res, rel, ql, k_bmc=5, modes=("off", "zero")):
             it = ql.add("only-groups-bmc-k%d-decode-%s[%s]" % (k, "off" if mode == "off" else "on(all payloads undecodable)", rel.cfg), r, dt)
             record(res, it, {"query": it["query"], "meaning": "histories of %d validly numbered sentences / rejected lines from a fresh parser vs. the specification's group monitor" % k} if k == k_bmc else None)
             if r == "sat":
-                hist = history_from_model(s.model(), steps, mode="zero" if mode == "zero" else "alpha")
+                hist = history_from_model(s.model(), steps, mode="zero" if mode == "zero" else "alpha", scale=rel.scale)
                 outs, path = replay_history(rel.cfg, hist)
                 res.replayed += 1
                 what = monitor_c06(hist, outs)
